@@ -61,4 +61,7 @@ def spectrum_ok(K, rel_gap=1e-3):
     if scale == 0:
         return False, ev
     gaps = np.diff(ev)
-    return bool((gaps > rel_gap * np.maximum(np.abs(ev[1:]), np.abs(ev[:-1]))).all() if len(ev) > 1 else True), ev
+    # distinct also at the resolution an eigen-decomposition in float64 has: two eigenvalues closer than ~1e4 eps |K|
+    # (e.g. an absorbing compartment, eigenvalue 0, next to a 1e-12 rate) are one numerically
+    absres = 1e4 * np.finfo(float).eps * float(np.abs(K).max())
+    return bool(((gaps > rel_gap * np.maximum(np.abs(ev[1:]), np.abs(ev[:-1]))) & (gaps > absres)).all() if len(ev) > 1 else True), ev
